@@ -380,7 +380,7 @@ void run_c07 (void)
 		if (f->needs_path) continue ;
 		if ((f->format & SF_FORMAT_ENDMASK) == SF_ENDIAN_CPU) continue ;
 		if (! vl_opts.thorough && (f->format & SF_FORMAT_ENDMASK) == SF_ENDIAN_LITTLE) continue ;	/* quick: file + be */
-		for (int ch = 1 ; ch <= 2 ; ch++)
+		for (int ch = 1 ; ch <= 3 ; ch++)	/* 3: a channel count that does not divide the staging buffers */
 		{	int rate = fmt_default_rate (f) ;
 			if (! rt_accepts (f, ch, rate)) continue ;
 			int B = fmt_block (f, ch, rate) ;
